@@ -7,10 +7,10 @@ call-back sequence).  Specification: `Tough/Spec/CJson.lean` (`canon`).
 -/
 import Tough.Proofs.CJsonCanon
 import Tough.Proofs.CJsonSort
+import Tough.Proofs.ExceptDec
 namespace Tough.C11
 open Tough.CJson
 
-deriving instance DecidableEq for Except
 
 /-- **C11.a (canonical form, full statement).** For every JSON value whose strings consist of
 Unicode scalar values, the bytes produced by the formatter are the OLPC canonical form `canon v`
